@@ -15,6 +15,7 @@ PROPS = {
     'C07': 'EC codewords are the GF(256) polynomial remainder',
     'C02': 'block layout, interleaving, RS codewords',
     'C18': 'embedded-image default frame geometry',
+    'C17': 'WASM entry points: option plumbing never traps',
 }
 
 
@@ -103,6 +104,10 @@ MANIFEST_META = {
         'note': 'PARTIAL: only the default-placement table is decided. The centring / parity adjustment / size, gap, position overrides live inside SvgBuilder::image(), a function interleaving f64 arithmetic with string formatting that neither Verus nor Kani can take a contract on; those clauses are not claimed.',
         'technique': 'Kani loop-free harness over kani::any() on the real function (appended harness module in a scratch copy)',
     },
+    'C17': {
+        'text': 'Verus verifies the real src/wasm.rs (extracted like any other module): SvgOptions::new establishes, and every setter preserves for ANY argument, the representation invariant (three colour vectors of length 4, size/position vectors of length 0 or 2); under that invariant qr_svg is proved free of index panics and of the Invalid-color-length panic of the builder, and qr()/bool_to_u8 return size*size bytes; qr and qr_svg call the same QRCode::new as the native builder with mode and mask unset. The index-out-of-bounds defect in qr_svg (image_position guarded by image_size) was found by the plain bounds obligation and fixed.',
+        'note': 'PARTIAL. color_to_code is an ASSUMED contract that is KNOWN to be false for malformed colour strings (it unwraps from_utf8/from_str_radix): the clause "no setter panics for any colour string" is NOT decided. crate::convert is represented by a hand-written stub of signatures (spec/stub_convert.vrs) - equality of the produced SVG text with the native builder is not decided.',
+    },
     'C14': {
         'category': 'other',
         'text': 'Contract part: every QRBuilder setter is proved to write exactly its field and keep all others (last value wins); build(&self) cannot change the builder and its result satisfies a postcondition over the final field values only. Structural part: a scan of /repo/src for static mut / interior mutability / globals / time / randomness must be empty. No schedule exploration exists in this technique family.',
@@ -112,7 +117,7 @@ MANIFEST_META = {
 
 _NYB = 'not yet built in this round (work in progress; will be claimed or given a final reason)'
 NOT_APPLICABLE = {
-    'C01': _NYB,     'C10': _NYB, 'C17': _NYB,     'C12': 'SVG text is built with format!/String::push_str/join and function-pointer calls; Verus has no format!/string-content reasoning and Kani on String code here is prohibitive (4 symbolic bytes > 20 min): no contract within reach can express it',
+    'C01': _NYB,     'C10': _NYB,     'C12': 'SVG text is built with format!/String::push_str/join and function-pointer calls; Verus has no format!/string-content reasoning and Kani on String code here is prohibitive (4 symbolic bytes > 20 min): no contract within reach can express it',
     'C13': 'pixels come out of usvg/resvg/tiny-skia/png (external crates, floating-point rasterisation); no repository function whose contract could state them and no verifier here reaches those crates',
     'C16': 'terminal renderer builds a String of multi-byte chars via push/push_str/format!; same limits as C12',
     'C19': 'the repository part is two ?-propagations around File::create/write_all/save_png; deciding file contents and fault behaviour needs contracts on std::fs/png, not on this code (Kani spike: foreign close/write unsupported)',
